@@ -18,7 +18,7 @@ TEXT = {
     "C02": dict(ref="DESIGN.md 4 C02", technique="TLC model checking + TLC-generated scenarios replayed on the router + TLC trace validation",
                 level=TL + "For C02 the compared projection is RESULT and ERROR(CALL/CANCEL) at every session; leg 1 checks the reply monitor "
                 "(progress* final, no stray reply), Owed and NoOrphan for every interleaving of call/cancel/yield/error/timer/leave.",
-                note=NOTE + "Callers keep reading (stalled callers are C07). Progressive call invocations are generated (bag pci); payload passthru is not."),
+                note=NOTE + "Callers keep reading (stalled callers are C07). Progressive call invocations (bag pci), payload passthru mode (bag ppt, MC kind ppt) and a caller that momentarily stops reading while the callee answers finally (scripted bag retryseq: the result-retry path) are generated."),
     "C03": dict(ref="DESIGN.md 4 C03", technique="TLC model checking + TLC-generated scenarios replayed on the router + TLC trace validation",
                 level=TL + "For C03 the projection is REGISTERED/UNREGISTERED/INVOCATION/ERROR(REGISTER, UNREGISTER) and the replies; the "
                 "registration chosen, the callee and the invocation id are bound to the logged values and must be a best match, an eligible "
@@ -152,17 +152,22 @@ TEXT["C14"] = dict(ref="DESIGN.md 4 C14", technique="TLC enumeration of message 
     note="Bounded: values up to depth 3 over 12 atoms (boundary integers 2^53, 2^53-1, -1, non-ASCII strings, empty containers). The clause 'deserialising arbitrary bytes never panics' is "
     "covered only for the mutation family of model-generated encodings (an explicit-state model cannot enumerate byte strings). Binary values are not generated. Trusted: TLC, the value "
     "normalisation in harness/codec_test.go (integers equal up to numeric representation).")
-TEXT["C15"] = dict(ref="DESIGN.md 4 C15", technique="TLC model checking of the rawsocket wire specification (MCWire.tla) + TLC-generated octet-level scenarios against the real rawsocket peer + the routing scenarios replayed over rawsocket/websocket x 3 serializers, all validated by TLC",
+TEXT["C15"] = dict(ref="DESIGN.md 4 C15", technique="TLC model checking of the rawsocket wire specification (MCWire.tla) and of its two writers (WireConc.tla, PlusCal) + TLC-generated octet-level scenarios and write schedules against the real rawsocket peer, accepting and connecting side + the routing scenarios replayed over rawsocket/websocket x 3 serializers, all validated by TLC",
     level="spec/Wire.tla specifies one rawsocket connection from the wire: the four handshake octets (agreement on serializer and on each side's length limit, clean failure otherwise), frames "
     "(a well-formed message within the announced limit is delivered in order; a frame above the limit, truncated or of reserved type ends that connection and hands the router nothing; PING is answered "
     "by PONG with the same payload), and router-side sends (a message above the client's limit or beyond what the 24 bit length field can carry is dropped whole, the following ones arrive intact). "
-    "Leg 1 (MCWire.tla): TLC checks prefix-closed FIFO delivery in both directions, limit agreement and that an ended connection stays ended over every sequence of 5-6 wire events. Conformance (a): "
+    "nexus is the accepting side (Wire!Handshake) or the connecting side (Wire!ServerReply: the harness answers ConnectRawSocketPeer octet by octet over loopback TCP). "
+    "Leg 1 (MCWire.tla): TLC checks prefix-closed FIFO delivery in both directions, limit agreement and that an ended connection stays ended over every sequence of 5-6 wire events, both roles; "
+    "WireConc.tla (the send and the receive goroutine writing header and payload of their frames to one connection, one action per write call): FramesIntact, InOrder, termination; the deviation "
+    "without mutual exclusion must be caught. Conformance (a'): the write schedules TLC enumerates from WireConc.tla are imposed on the real peer through a gated connection (each Write call waits for "
+    "the harness's grant); the client must read whole frames, messages in order, PONGs in order (Wire!Race). Conformance (a): "
     "TLC -simulate of GenWire.tla generates octet-level scenarios (sizes at limit-1, limit, limit+1 for several negotiated limits, header and payload in one or two writes, lists that only resemble "
     "messages) executed against transport.AcceptRawSocket over an in-memory pipe; TLC validates octets read, messages delivered and connection end against TraceWire.tla. Conformance (b), "
     "interchangeability: routing scenarios of the core family (pub/sub, RPC, cancel, meta API, event history, testaments, disclosure) run with every network session attached over rawsocket or "
     "websocket with JSON, MessagePack or CBOR and must be accepted by the same Trace.tla as in-process runs (hence equal up to numeric representation).",
-    note=NOTE + "The websocket peer is driven through an in-memory implementation of transport.WebsocketConnection; gorilla's framing, TLS and the HTTP upgrade are not modelled. The client side of the "
-    "rawsocket handshake (ConnectRawSocketPeer dials a real socket) is not exercised. What a departing network session still receives in the step it leaves is compared on its session-control messages only. "
+    note=NOTE + "The websocket peer is driven through an in-memory implementation of transport.WebsocketConnection; gorilla's framing, TLS and the HTTP upgrade are not modelled. Scenarios with nexus as the connecting side and the write-schedule scenarios run in real time (a goroutine "
+    "waiting for a socket or a mutex is not durably blocked in a bubble); step ends are detected by marker messages in both directions, never by a timeout on correct code. Websocket peers run with and "
+    "without keep-alive; in-process publishers also hand over payloads no serializer can encode (dropped whole for network receivers only). What a departing network session still receives in the step it leaves is compared on its session-control messages only. "
     "16 MiB frames only in the thorough tier.")
 
 NOT_APPLICABLE = {}
@@ -170,7 +175,7 @@ NOT_APPLICABLE = {}
 ENGINES = [
     {"name": "codec", "path": "/verif/tools/fam_codec.py; spec/Codec.tla; harness/codec_test.go",
      "serves_properties": ["C14"], "kind_free_text": "TLC-enumerated message / non-message vectors run through the three serializers, results validated by TLC"},
-    {"name": "wire", "path": "/verif/tools/fam_wire.py; spec/Wire.tla MCWire.tla GenWire.tla TraceWire.tla Trace.tla; harness/wire.go wire_test.go",
+    {"name": "wire", "path": "/verif/tools/fam_wire.py; spec/Wire.tla MCWire.tla WireConc.tla GenWire.tla TraceWire.tla Trace.tla; harness/wire.go wire_test.go",
      "serves_properties": ["C15"], "kind_free_text": "TLC model checking and scenario generation for the rawsocket wire, octet-level executor, routing scenarios over network transports, TLC trace validation"},
     {"name": "client", "path": "/verif/tools/fam_client.py; spec/Cli.tla GenCli.tla TraceCli.tla CliConc.tla Hostile.tla; harness/client_test.go",
      "serves_properties": ["C16", "C17"], "kind_free_text": "TLC model checking of the PlusCal client skeleton, TLC script generation, execution against the real client with a scripted router under synctest, TLC trace validation"},
